@@ -52,6 +52,19 @@ def py_i2i(S, Es, D, Ed):
     return o
 
 
+def rne_int(v, mant):
+    """integer v rounded to `mant` significant bits, nearest-even, as an exactly representable python float"""
+    a = abs(v)
+    nb = a.bit_length()
+    if nb > mant:
+        sh = nb - mant
+        q, rem, half = a >> sh, a & ((1 << sh) - 1), 1 << (sh - 1)
+        if rem > half or (rem == half and (q & 1)):
+            q += 1
+        a = q << sh
+    return float(-a if v < 0 else a)
+
+
 def plan(tier):
     thorough = tier == 'thorough'
     src = [KERNEL_HEAD]
@@ -75,7 +88,8 @@ def plan(tier):
         jobs.append(Job('%s.CTOR.%s' % (PROP, tag), kname, P_CTOR, i2i_contract(S, es, D, ed, 1),
                         replace=[(P_I2I, i2i_contract(S, es, D, ed, 1))], layer=2, skip_this=True, **common))
     # integer -> floating and back
-    finst = [('i16', -4, 'f32'), ('i8', 0, 'f32'), ('u16', -16, 'f32'), ('i32', -16, 'f64'), ('u32', 8, 'f64'), ('i32', -8, 'f32')]
+    finst = [('i16', -4, 'f32'), ('i8', 0, 'f32'), ('u16', -16, 'f32'), ('i32', -16, 'f64'), ('u32', 8, 'f64'), ('i32', -8, 'f32'),
+             ('i64', -32, 'f32'), ('u64', -16, 'f32'), ('i64', -10, 'f64')]       # reps with more digits than a double's significand (seed C04_2: double rounding)
     P_I2F = r'^cnl::custom_operator<cnl::_impl::convert_op, cnl::op_value<[a-z_0-9 ]+, cnl::power<-?\d+, 2> >, cnl::op_value<(float|double), cnl::power<0, 2> > >::operator\(\)\('
     P_F2I = r'^cnl::custom_operator<cnl::_impl::convert_op, cnl::op_value<(float|double), cnl::power<0, 2> >, cnl::op_value<[a-z_0-9 ]+, cnl::power<-?\d+, 2> > >::operator\(\)\('
     for (s, es, f) in finst:
@@ -91,13 +105,17 @@ def plan(tier):
         # the exact value s*2^Es is representable in double for these reps; rounding it once to F is the correctly rounded result
         exact_d = '((double)%s * %s)' % (sval, scale)
         ens = ['$RET == (%s)%s' % (F, exact_d)]
+        if S.digits > 53:
+            # the rep does not fit a double: the correctly rounded value of rep*2^E is RNE_F(rep) (IEEE convertFromInt, one rounding,
+            # CBMC's bit-precise int->float) scaled by the exactly representable power 2^E (no overflow/underflow for these exponents)
+            ens = ['$RET == ((%s)%s) * (%s)%s' % (F, sval, F, scale)]
         if S.digits <= mant:
             # round trip: converting back (multiply by 2^-Es, truncate) yields s again
             ens.append('(%s)($RET * (%s)%s) == %s' % (S.sctype, F, float(2.0 ** -es).hex(), sval))
         jobs.append(Job('%s.I2F.%s' % (PROP, tag), kname, P_I2F, Contract(requires=[], ensures=ens, assigns=[],
                         note='correctly rounded (nearest-even) value of rep*2^E; identity round trip when the significand has enough digits'),
                         via=sname, shim=sname, shim_types=[s], prop=PROP, timeout=300,
-                        oracle=(lambda es, f: lambda v: ('value', float(__import__('numpy').float32(v * 2.0 ** es)) if f == 'f32' else v * 2.0 ** es))(es, f)))
+                        oracle=(lambda es, f: lambda v: ('value', rne_int(v, 24 if f == 'f32' else 53) * 2.0 ** es))(es, f)))
         sname2 = 'vp_fromf_' + tag
         src.append(shim(s, sname2, [(f, 'a')], 'return cnl::_impl::to_rep(%s{a});' % A))
         x = '(*a1)'
@@ -122,6 +140,6 @@ def plan(tier):
     meta = {'instantiations': len(jobs),
             'explanation': 'value-preservation / truncation-toward-zero contracts on the convert operators; floating point decided by CBMC\'s bit-precise IEEE-754 encoding',
             'not_applicable_parts': ['long double (x87 80-bit) sources and destinations: CBMC models long double as binary128',
-                                     '64-bit reps to double where digits exceed the significand: correct rounding not claimed', 'radix 10 conversions'],
+                                      'radix 10 conversions'],
             'assumptions': ['IEEE-754 binary32/binary64 round-to-nearest-even as modelled by CBMC; no -ffast-math']}
     return {'kernels': [k], 'jobs': jobs, 'meta': meta}
